@@ -45,8 +45,9 @@ PSD = bfm.get_power_spectral_density_matrix
 RTOL = 1e-9
 
 
-def _tol(mask):
-    return 1e-5 if (mask is not None and mask.dtype == np.float32) else RTOL
+def _tol(mask, observation=None):
+    single = (mask is not None and mask.dtype == np.float32) or (observation is not None and observation.dtype == np.complex64)
+    return 1e-5 if single else RTOL
 
 
 def _canon(observation, mask, sensor_dim, source_dim, time_dim):
@@ -66,6 +67,8 @@ def _canon(observation, mask, sensor_dim, source_dim, time_dim):
 
 def _expected(observation, mask, sensor_dim, source_dim, time_dim, normalize):
     obs_c, mask_c, kpos = _canon(observation, mask, sensor_dim, source_dim, time_dim)
+    if obs_c.dtype == np.complex64:      # the reference is evaluated in double precision on the same values
+        obs_c = obs_c.astype(np.complex128)
     ref = pu.ref_psd(obs_c, mask_c, normalize)
     if kpos is not None:
         ref = np.moveaxis(ref, -3, kpos)
@@ -134,17 +137,17 @@ def psd_is_defining_sum(observation, mask, sensor_dim, source_dim, time_dim, nor
     if not np.all(np.isfinite(got)):
         return Fail('non-finite', 'result contains inf/nan for finite inputs')
     err = _per_matrix_err(got, ref)
-    if err > _tol(mask0):
+    if err > _tol(mask0, obs0):
         return Fail('value', f'differs from sum_t w[t] x[t] x[t]^H (w = m/max(sum m, 1e-10), m, or 1/T): rel. error {err:.3g}; '
                     f'obs {obs0.shape} mask {None if mask0 is None else (mask0.shape, str(mask0.dtype))} '
                     f'dims {(sensor_dim, source_dim, time_dim)} normalize={normalize}')
     gc = got if kpos is None else np.moveaxis(got, kpos, -3)
     herm = pu.rel_err(gc, np.conj(np.swapaxes(gc, -1, -2)))
-    if herm > RTOL:
+    if herm > _tol(None, obs0):
         return Fail('not-hermitian', f'result is not Hermitian: rel. asymmetry {herm:.3g}')
     ev = np.linalg.eigvalsh((gc + np.conj(np.swapaxes(gc, -1, -2))) / 2)
     scale = np.max(np.abs(ev), axis=-1) if ev.size else np.zeros(())
-    if ev.size and np.any(ev[..., 0] < -1e-9 * scale - 1e-300):
+    if ev.size and np.any(ev[..., 0] < -_tol(None, obs0) * scale - 1e-300):
         return Fail('not-psd', f'negative eigenvalue {float(np.min(ev))} for a non-negative mask')
     # read-only inputs: an in-place write would raise
     o2 = obs0.copy(order='K')
@@ -175,7 +178,7 @@ def psd_rescaling_invariant(observation, mask, c, sensor_dim, source_dim, time_d
     b = PSD(observation, (mask * mask.dtype.type(c)), sensor_dim=sensor_dim, source_dim=source_dim, time_dim=time_dim,
             normalize=True)
     err = _per_matrix_err(np.asarray(b), np.asarray(a))
-    if err > 10 * _tol(mask):
+    if err > 10 * _tol(mask, observation):
         return Fail('rescaling-changes-result', f'psd(x, {c}*m) differs from psd(x, m) by rel. {err:.3g}')
 
 
@@ -204,7 +207,7 @@ def psd_layouts_agree(observation_c, mask_c, layouts, normalize):
             if got.shape != first[0].shape:
                 return Fail('layout-shape', f'layout {(ps, pq, pt)} gives shape {got.shape}, layout {first[1]} {first[0].shape}')
             err = _per_matrix_err(got, first[0])
-            if err > 10 * _tol(mask_c):
+            if err > 10 * _tol(mask_c, observation_c):
                 return Fail('layout-value', f'layout (sensor,source,time)={(ps, pq, pt)} differs from layout {first[1]} '
                             f'by rel. {err:.3g}')
     if first is None:
@@ -222,7 +225,7 @@ def psd_boolean_equals_float(observation, mask, sensor_dim, source_dim, time_dim
     kw = dict(sensor_dim=sensor_dim, source_dim=source_dim, time_dim=time_dim, normalize=normalize)
     a = PSD(observation, mask, **kw)
     b = PSD(observation, mask.astype(np.float64), **kw)
-    if _per_matrix_err(np.asarray(a), np.asarray(b)) > RTOL:
+    if _per_matrix_err(np.asarray(a), np.asarray(b)) > _tol(None, observation):
         return Fail('boolean-differs-from-float', f'boolean mask and its float copy give different results '
                     f'(rel. {pu.rel_err(a, b):.3g})')
 
@@ -262,7 +265,7 @@ def condition_covariance_formula(psd, gamma, hermitian_psd, memory='c'):
 
 
 # ----------------------------------------------------------------------------- generation
-def _gen_case(rng, tier, small):
+def _gen_case(rng, tier, small, single_ok=False):
     """one PSD problem in canonical layout + one admissible caller layout"""
     nlead = int(rng.integers(0, 4))
     lead = pu.gen_lead(rng, nlead, small=small)
@@ -271,6 +274,8 @@ def _gen_case(rng, tier, small):
     else:
         D, T, K = int(rng.integers(1, 9)), int(rng.integers(1, 65)), int(rng.integers(1, 6))
     obs_c, okind = pu.gen_obs(rng, lead, D, T)
+    if single_ok and okind != 'scaled' and rng.random() < 0.2:
+        obs_c, okind = obs_c.astype(np.complex64), okind + '-complex64'      # single-precision STFT
     mode = str(rng.choice(['none', 'plain', 'source', 'source', 'source']))
     n = nlead + 2
     if mode == 'none':
@@ -327,7 +332,7 @@ def search(ctx):
     for i in range(n_cases):
         if ctx.out_of_time(reserve=20):
             break
-        case = _gen_case(rng, ctx.tier, small=(i < n_cases // 2))
+        case = _gen_case(rng, ctx.tier, small=(i < n_cases // 2), single_ok=True)
         lays = _layouts(case)
         lay = lays[int(rng.integers(len(lays)))]
         normalize = bool(rng.random() < 0.6)
